@@ -202,6 +202,7 @@ type session struct {
 	other   *vconn // connection of the second peer's session, if any
 	peerID  uint32 // BGP identifier of the last OPEN the peer sent
 	noAP    bool   // the OPEN being built leaves out the add-path capability
+	openClass string // name of the OPEN class being built
 	lostIn  string // state in which the current connection was lost without a NOTIFICATION ("" = it was not)
 }
 
@@ -318,6 +319,9 @@ func (s *session) openBytes(o sessOpen) []byte {
 	}
 	if o.Role != "none" {
 		caps = append(caps, wire.Cap{Code: 9, Value: []byte{roleCap[o.Role]}})
+	}
+	if s.openClass == "okOddAP" { // add-path for an address family nobody configured, a SAFI the speaker does not run, an odd mode
+		caps = append(caps, wire.Cap{Code: 69, Value: []byte{0, 25, 1, 3, 0, 1, 4, 3, 0, 2, 128, 1, 0, 3, 1, 2}})
 	}
 	if s.cfg.AddPath && !s.noAP {
 		caps = append(caps, wire.Cap{Code: 69, Value: []byte{0, 1, 1, 2, 0, 2, 1, 2}}) // we send several paths for both families
@@ -449,6 +453,17 @@ func (s *session) updateBytes(name string, u sessUpd) []byte {
 	case "mpNH32short":
 		v := append([]byte{0, 2, 1, 32}, []byte{0x20, 0x01, 0x0d, 0xb8, 0, 0, 0, 0, 0, 0, 0, 0, 0, 0, 0, 0xc9, 0xfe, 0x80, 0, 0}...)
 		body = wire.UpdateBody(nil, cat(wire.Attr(0x80, wire.AttrMPReach, v, false), s.validAttrs(true)), nil)
+	case "annAas4aggr":
+		body = wire.UpdateBody(nil, cat(attrs, wire.Attr(0xc0, 18, append(wire.U32(65001), 10, 0, 0, 9), false)), nlri)
+	case "annAas4path":
+		body = wire.UpdateBody(nil, cat(attrs, wire.Attr(0xc0, 17, append([]byte{2, 1}, wire.U32(70000)...), false)), nlri)
+	case "annAaggr":
+		body = wire.UpdateBody(nil, cat(attrs, wire.Attr(0x40, 6, nil, false), wire.Attr(0xc0, 7, []byte{0xfd, 0xe9, 10, 0, 0, 9}, false)), nlri)
+	case "annAunk":
+		body = wire.UpdateBody(nil, cat(attrs, wire.Attr(0xc0, 99, []byte{1, 2, 3, 4, 5}, false)), nlri)
+	case "annAcomm":
+		body = wire.UpdateBody(nil, cat(attrs, wire.Attr(0xc0, 8, append(wire.U32(65000<<16|1), wire.U32(65000<<16|2)...), false),
+			wire.Attr(0xc0, 32, cat(wire.U32(65000), wire.U32(1), wire.U32(2)), false)), nlri)
 	case "noAttrs":
 		body = wire.UpdateBody(nil, nil, nlri)
 	case "noNextHopMP": // IPv4 NLRI next to an MP_REACH_NLRI: the IPv6 next hop in there is not the NEXT_HOP of the IPv4 routes
@@ -824,6 +839,7 @@ func init() {
 					s.addpath = st.Bool("ap") // negotiated: the configuration wants it and the OPEN advertises it
 				}
 				s.noAP = st.Bool("noap")
+				s.openClass = st.Str("o")
 				s.conn.peerSend(s.openBytes(o))
 			case "RecvKeepalive":
 				s.conn.peerSend(wire.Header(wire.TypeKeepalive, nil))
